@@ -1,7 +1,63 @@
-/- C19 line-protocol driver (core-only). Stub until the property's model lands. -/
+/- C19 line-protocol driver (core-only). -/
+import BV.Common.Hex
+import BV.Common.Sha256
+import BV.Common.Aead
+import BV.C19.Model
 namespace BV.C19.Driver
+open BV.Hex BV.Aead BV.C19
+
+def CP : Prims := chachaPoly
+
+/-- deterministic filler shared with the Go harness: byte i = (seed + 131·i + 7·(i div 256)) mod 256 -/
+def fill (seed len : Nat) : List UInt8 :=
+  (List.range len).map (fun i => UInt8.ofNat ((seed + 131 * i + 7 * (i / 256)) % 256))
+
+def digest (bs : List UInt8) : String :=
+  toString bs.length ++ ":" ++ listToHex (BV.Sha256.hashList bs)
+
+def parseNats? (s : String) (sep : String) : Option (List Nat) :=
+  if s == "-" then some [] else (s.splitOn sep).mapM (fun (t : String) => t.toNat?)
+
+/-- FSChaCha20.Crypt over chunks `len:seed` -/
+def runFsc (key : List UInt8) (chunks : List (List Nat)) : Option String := do
+  let mut s : FSC := ⟨key, 0, 0⟩
+  let mut out : List (List UInt8) := []
+  for c in chunks do
+    match c with
+    | [len, seed] =>
+      let (o, s') := fscCrypt CP s (fill seed len)
+      s := s'
+      out := o :: out
+    | _ => none
+  pure (digest out.reverse.flatten ++ " " ++ listToHex s.key)
+
+/-- FSChaCha20Poly1305.Encrypt over messages `len:seed:aadlen`, then Decrypt of each -/
+def runFsp (key : List UInt8) (msgs : List (List Nat)) : Option String := do
+  let mut s : FSP := ⟨key, 0⟩
+  let mut r : FSP := ⟨key, 0⟩
+  let mut out : List (List UInt8) := []
+  for c in msgs do
+    match c with
+    | [len, seed, aadlen] =>
+      let aad := fill (seed + 1) aadlen
+      let (o, s') := fspEncrypt CP s aad (fill seed len)
+      s := s'
+      match fspDecrypt CP r aad o with
+      | some (pt, r') => if pt == fill seed len then r := r' else none
+      | none => none
+      out := o :: out
+    | _ => none
+  pure (digest out.reverse.flatten ++ " " ++ listToHex s.key)
 
 def handle : List String → String
-  | _ => "unimplemented"
+  | ["fsc", key, chunks] =>
+    match hexToList? key, (if chunks == "-" then some [] else (chunks.splitOn ",").mapM (parseNats? · ":")) with
+    | some k, some cs => if k.length ≠ 32 then "bad-op" else (runFsc k cs).getD "bad-op"
+    | _, _ => "bad-op"
+  | ["fsp", key, msgs] =>
+    match hexToList? key, (if msgs == "-" then some [] else (msgs.splitOn ",").mapM (parseNats? · ":")) with
+    | some k, some cs => if k.length ≠ 32 then "bad-op" else (runFsp k cs).getD "bad-op"
+    | _, _ => "bad-op"
+  | _ => "bad-op"
 
 end BV.C19.Driver
